@@ -49,18 +49,25 @@ func (repo *Repository) GetConfig(prefix string) (*Config, error) {
 	}
 
 	for len(out) > 0 {
-		keyEnd := bytes.IndexByte(out, '\n')
+		// Each entry is terminated by NUL. Within an entry, the key
+		// is separated from the value by LF. An entry for a key that
+		// has no value at all (e.g., a line `bare` within `[core]`)
+		// doesn't contain the LF:
+		entryEnd := bytes.IndexByte(out, 0)
+		if entryEnd == -1 {
+			return nil, errors.New("invalid output from 'git config'")
+		}
+		rec := out[:entryEnd]
+		out = out[entryEnd+1:]
+
+		var key, value string
+		keyEnd := bytes.IndexByte(rec, '\n')
 		if keyEnd == -1 {
-			return nil, errors.New("invalid output from 'git config'")
+			key = string(rec)
+		} else {
+			key = string(rec[:keyEnd])
+			value = string(rec[keyEnd+1:])
 		}
-		key := string(out[:keyEnd])
-		out = out[keyEnd+1:]
-		valueEnd := bytes.IndexByte(out, 0)
-		if valueEnd == -1 {
-			return nil, errors.New("invalid output from 'git config'")
-		}
-		value := string(out[:valueEnd])
-		out = out[valueEnd+1:]
 
 		ok, rest := configKeyMatchesPrefix(key, prefix)
 		if !ok {
